@@ -98,18 +98,25 @@ def make_config(root: str, handlers: typing.Optional[str] = None,
 
 
 _mime_inited = False
+import mimetypes as _mt
+_PRISTINE_ENCODINGS = dict(_mt.encodings_map)
 
 
 def init_process_globals(config: configparser.ConfigParser) -> None:
     """What bin/pygopherd does once per process before serving."""
     global _mime_inited
-    if not _mime_inited:
+    import mimetypes
+    key = (config.get("pygopherd", "mimetypes"), config.get("pygopherd", "encoding"))
+    if _mime_inited != key:
+        # a real process starts from the interpreter's own tables: put them back before (re-)initialising
+        mimetypes.encodings_map.clear()
+        mimetypes.encodings_map.update(_PRISTINE_ENCODINGS)
         saved = logger.__dict__.get("log")
         logger.log = lambda m: None
         initialization.init_mimetypes(config)
         if saved is not None:
             logger.log = saved
-        _mime_inited = True
+        _mime_inited = key
 
 
 def reset_lazies() -> None:
